@@ -22,6 +22,38 @@ import (
 var C15ZoneCandidates = []string{
 	"UTC", "America/New_York", "Europe/Berlin", "Australia/Lord_Howe", "Asia/Kathmandu",
 	"Pacific/Apia", "America/Sao_Paulo", "Africa/Casablanca",
+	// daylight saving that starts at local midnight, in some years on the first or last day of a month (that
+	// day's 00:00 does not exist): Azores / Beirut 31 March, Cairo, Havana, Asuncion, Amman, Santiago
+	"Atlantic/Azores", "Asia/Beirut", "Africa/Cairo", "America/Havana", "America/Asuncion", "Asia/Amman", "America/Santiago",
+}
+
+type c15YM struct{ Y, M int }
+
+var (
+	c15SkipMu    sync.Mutex
+	c15SkipCache = map[string][]c15YM{}
+)
+
+// c15SkippedMidnightMonths lists the months of 1970..2100 in which the local midnight of the first or of the last
+// day does not exist in loc (a generator bias only: the oracle does its own calendar arithmetic).
+func c15SkippedMidnightMonths(loc *time.Location) []c15YM {
+	c15SkipMu.Lock()
+	defer c15SkipMu.Unlock()
+	if v, ok := c15SkipCache[loc.String()]; ok {
+		return v
+	}
+	out := []c15YM{}
+	for y := C15MinYear; y <= C15MaxYear; y++ {
+		for m := 1; m <= 12; m++ {
+			first := time.Date(y, time.Month(m), 1, 0, 0, 0, 0, loc)
+			last := time.Date(y, time.Month(m), ref.C15DaysIn(y, m), 0, 0, 0, 0, loc)
+			if first.Hour() != 0 || first.Day() != 1 || last.Hour() != 0 || last.Day() != ref.C15DaysIn(y, m) {
+				out = append(out, c15YM{y, m})
+			}
+		}
+	}
+	c15SkipCache[loc.String()] = out
+	return out
 }
 
 var (
@@ -716,6 +748,10 @@ func C15DrawInstants(t *rapid.T, s ref.C15Spec, n int) []int64 {
 			m := rapid.IntRange(1, 12).Draw(t, "sM")
 			if rapid.Bool().Draw(t, "sFeb") {
 				m = rapid.SampledFrom([]int{2, 3}).Draw(t, "sFebM")
+			}
+			if sk := c15SkippedMidnightMonths(loc); len(sk) > 0 && rapid.Bool().Draw(t, "sSkipped") {
+				ym := sk[rapid.IntRange(0, len(sk)-1).Draw(t, "sSkippedI")]
+				y, m = ym.Y, ym.M
 			}
 			dim := ref.C15DaysIn(y, m)
 			d := rapid.SampledFrom([]int{1, 2, 27, 28, 29, 30, 31, dim - 2, dim - 1, dim, dim + 1}).Draw(t, "sD")
